@@ -53,6 +53,7 @@ def mk_members(P, tag="members"):
                                "setter": None, "deleter": None},
                               ident=z3.Function(tag + "_id", StrS, IntS)(zstr(k)))
             P.assume(z3.And(cache[key].cls.z >= 0, cache[key].cls.z < 4))
+            cache[key].hook_first = ("labels", "docstring", "annotation")     # an Alias member forwards these reads to its target (hooks on ("Alias", attr), if any)
         return cache[key]
     return SMap(lambda k: HAS(zstr(k)), get, tag=tag), HAS
 
